@@ -1013,7 +1013,7 @@ class Table(Expression, Selectable):
             col: Expr = column(*reversed(parts[0:4]), fields=parts[4:], copy=copy)  # type: ignore
         else:
             # This branch will be reached if a function or array is wrapped in a `Table`
-            col = last_part
+            col = maybe_copy(last_part, copy)
 
         alias = self.args.get("alias")
         if alias:
